@@ -85,12 +85,17 @@ var c01Funcs = map[string]func(a, b []byte){
 	"duration.go (*Duration).UnmarshalText": func(a, b []byte) {
 		var d timeutil.Duration
 		errStr(d.UnmarshalText(a))
+		// ... and into a receiver that already holds a value
+		d2 := timeutil.Duration(123456789)
+		errStr(d2.UnmarshalText(a))
 	},
 	"duration.go (Duration).MarshalText": func(a, b []byte) { _, _ = timeutil.Duration(bytesToInt64(a)).MarshalText() },
 	"duration.go (Duration).String":      func(a, b []byte) { _ = timeutil.Duration(bytesToInt64(a)).String() },
 	"hostport.go (*HostPort).UnmarshalText": func(a, b []byte) {
 		hp := &netutil.HostPort{}
 		errStr(hp.UnmarshalText(a))
+		hp2 := &netutil.HostPort{Host: "an.older.host.example", Port: 65535}
+		errStr(hp2.UnmarshalText(a))
 	},
 	"hostport.go (HostPort).MarshalText": func(a, b []byte) { _, _ = netutil.HostPort{Host: string(a), Port: uint16(len(b))}.MarshalText() },
 	"hostport.go (HostPort).String":      func(a, b []byte) { _ = netutil.HostPort{Host: string(a), Port: uint16(len(b))}.String() },
@@ -113,11 +118,20 @@ var c01Funcs = map[string]func(a, b []byte){
 	"prefix.go (*Prefix).UnmarshalText": func(a, b []byte) {
 		p := &netutil.Prefix{}
 		errStr(p.UnmarshalText(a))
+		p2 := &netutil.Prefix{}
+		_ = p2.UnmarshalText([]byte("fe80::1%eth0"))
+		errStr(p2.UnmarshalText(a))
 	},
 	"prefix.go UnembedPrefixes": func(a, b []byte) { netutil.UnembedPrefixes([]netutil.Prefix{{}, {}}); netutil.UnembedPrefixes(nil) },
 	"record.go (*Record).UnmarshalText": func(a, b []byte) {
 		r := &hostsfile.Record{}
 		errStr(r.UnmarshalText(a))
+		// a Record that is used again: it already holds more names than the new line has, or fewer
+		r2 := &hostsfile.Record{}
+		_ = r2.UnmarshalText([]byte("1.2.3.4 a b c d e"))
+		errStr(r2.UnmarshalText(a))
+		errStr(r2.UnmarshalText([]byte("::1 x")))
+		errStr(r2.UnmarshalText(a))
 	},
 	"record.go (Record).MarshalText": func(a, b []byte) {
 		addr, _ := netip.ParseAddr(string(b))
@@ -377,6 +391,9 @@ func genC01(g *G) {
 	// long internationalised names: the UTF-8 text is longer than the DNS limits (63 / 253 bytes)
 	// while the Punycode form that the validators measure still fits, and the other way round
 	for _, in := range longIDNNames() {
+		add(in, "")
+	}
+	for _, in := range revLookAlikes {
 		add(in, "")
 	}
 	// addresses whose text is long because of the zone
